@@ -27,6 +27,9 @@ func knownSel() string {
 
 func famKnown(c *Ctx) {
 	sel := knownSel()
+	if sel == "" || sel == "C43" {
+		knownTimeHelpers(c, c.N)
+	}
 	if sel == "" || sel == "C44" {
 		knownFieldMaskAlgebra(c, c.N/2)
 		knownFieldMaskValidity(c, c.N/2)
